@@ -8,6 +8,8 @@ What is regenerated from the snapshot on every run:
   * the initial values `Type *ty = ty_int; int counter = 0;`,
   * the primitive `Type` literals of type.c (size, align, is_unsigned), pointer_to / enum_type / struct_type literals,
     the shape of array_of,
+  * the `_Alignas` arm of declspec (pinned; the field of the operand type that `_Alignas(type-name)` reads is translated),
+    `mem->align = attr.align ? attr.align : mem->ty->align` in struct_members, the `var->align` assignments, `aligned(N)`,
   * align_to (codegen.c) and align_down (parse.c) as Lean functions on Int with C's truncating division.
 Anything that does not have exactly the expected shape raises ExtractError."""
 import re
@@ -67,6 +69,45 @@ def generate(repo):
     init_ty, init_counter = m.group(1), int(m.group(2))
     if init_ty not in TY_LEAN:
         raise ExtractError(f'initial type ty_{init_ty} unknown')
+
+    # ---- the `_Alignas` arm (both forms), pinned token for token except the field read from the operand type
+    ia = body.find('if (equal(tok, "_Alignas")) {')
+    if ia < 0:
+        raise ExtractError('declspec: the _Alignas arm was not found')
+    ja = body.index('{', ia)
+    depth_a = 0
+    ka = ja
+    while True:
+        if body[ka] == '{':
+            depth_a += 1
+        elif body[ka] == '}':
+            depth_a -= 1
+            if depth_a == 0:
+                break
+        ka += 1
+    arm = norm(body[ja + 1:ka])
+    ma = re.fullmatch(r'if \(!attr\) error_tok\(tok, "_Alignas is not allowed in this context"\); tok = skip\(tok->next, "\("\); '
+                      r'if \(is_typename\(tok\)\) attr->align = typename\(&tok, tok\)->(\w+); '
+                      r'else attr->align = const_expr\(&tok, tok\); tok = skip\(tok, "\)"\); continue;', arm)
+    if not ma:
+        raise ExtractError('declspec: the _Alignas arm has a shape the translator does not understand: ' + arm)
+    alignas_field = ma.group(1)
+    if alignas_field not in ('align', 'size'):
+        raise ExtractError(f'declspec: _Alignas(type-name) reads ->{alignas_field} of the operand type')
+    # struct_members: mem->align = attr.align ? attr.align : mem->ty->align;   (anonymous member and regular member)
+    assigns = re.findall(r'mem->align\s*=\s*([^;]+);', parse)
+    if [norm(a) for a in assigns] != ['attr.align ? attr.align : mem->ty->align'] * 2:
+        raise ExtractError('parse.c: expected exactly two `mem->align = attr.align ? attr.align : mem->ty->align;`, found: ' + repr(assigns))
+    # variables: var->align = ty->align (new_var) overridden by attr->align in declaration() and global_variable()
+    vassigns = [norm(a) for a in re.findall(r'var->align\s*=\s*([^;]+);', parse)]
+    if sorted(vassigns) != ['attr->align', 'attr->align', 'ty->align']:
+        raise ExtractError('parse.c: assignments to var->align changed: ' + repr(vassigns))
+    if len(re.findall(r'if \(attr && attr->align\)\s*var->align = attr->align;', parse)) != 1 or \
+       len(re.findall(r'if \(attr->align\)\s*var->align = attr->align;', parse)) != 1:
+        raise ExtractError('parse.c: the guards of `var->align = attr->align` changed')
+    # attribute_list: aligned(N) -> ty->align = const_expr
+    if len(re.findall(r'if \(consume\(&tok, tok, "aligned"\)\) \{ tok = skip\(tok, "\("\); ty->align = const_expr\(&tok, tok\); tok = skip\(tok, "\)"\); continue; \}', norm(parse))) != 1:
+        raise ExtractError('parse.c: attribute_list aligned(N) arm changed')
 
     # ---- the loop must be `while (is_typename(tok)) {`, the switch is inside it and followed by tok = tok->next
     if not re.search(r'while\s*\(\s*is_typename\s*\(\s*tok\s*\)\s*\)\s*\{', body):
@@ -219,6 +260,12 @@ def generate(repo):
     o += f'def STRUCT_INIT_SIZE : Nat := {ss}\ndef STRUCT_INIT_ALIGN : Nat := {sa}\n\n'
     o += '/-- `array_of`: new_type(TY_ARRAY, base->size * len, base->align) -/\n'
     o += 'def arrayOf (baseSize baseAlign len : Nat) : Nat × Nat := (baseSize * len, baseAlign)\n\n'
+    o += '/-- declspec, `_Alignas(type-name)`: attr->align = typename(&tok, tok)->%s  (arguments: size and align of the operand type) -/\n' % alignas_field
+    o += 'def alignasOfType (tySize tyAlign : Int) : Int := %s\n\n' % ('tyAlign' if alignas_field == 'align' else 'tySize')
+    o += '/-- declspec, `_Alignas(constant-expression)`: attr->align = const_expr(&tok, tok) -/\n'
+    o += 'def alignasOfConst (v : Int) : Int := v\n\n'
+    o += '/-- struct_members (both sites): mem->align = attr.align ? attr.align : mem->ty->align -/\n'
+    o += 'def memberAlign (attrAlign tyAlign : Int) : Int := if attrAlign ≠ 0 then attrAlign else tyAlign\n\n'
     o += '/-- codegen.c `align_to`: (n + align - 1) / align * align  (C `int`, `/` truncates; division by zero is the caller\'s problem) -/\n'
     o += 'def alignTo (n align : Int) : Int := Int.tdiv (n + align - 1) align * align\n\n'
     o += '/-- parse.c `align_down`: align_to(n - align + 1, align) -/\n'
